@@ -281,8 +281,12 @@ def _outer_object_table(ctx: Ctx):
         elem = add('AssignDef', site=Obj('Assign', expr=Obj('ListRef', value=var(root))), prev=None)
         tgt = add('AssignDef', site=Obj('ForStmt', iterable=var(root)), prev=None)
         pick = add('AssignDef', site=Obj('Assign', expr=Obj('IfExpr', ift=var(lit), iff=var(root))), prev=None)
+        pick2 = add('AssignDef', site=Obj('Assign', expr=Obj('IfExpr', ift=var(root), iff=var(lit))), prev=None)
+        tup = add('AssignDef', site=Obj('Assign', expr=Obj('TupleExpr', elts=[var(root), var(lit)])), prev=None)
+        tup2 = add('AssignDef', site=Obj('Assign', expr=Obj('TupleExpr', elts=[var(lit), var(lit), var(root)])), prev=None)
         rows += [(f'a loop merge of {what}', phi, outer), (f'{what} after an element store in a loop', st, outer), (f'an alias of {what}', alias, outer),
-                 (f'an element of {what}', elem, outer), (f'a loop target over {what}', tgt, outer), (f'{what} or a literal, by a condition', pick, outer)]
+                 (f'an element of {what}', elem, outer), (f'a loop target over {what}', tgt, outer), (f'a literal or {what}, by a condition', pick, outer),
+                 (f'{what} or a literal, by a condition', pick2, outer), (f'a tuple holding {what} and a literal', tup, outer), (f'a tuple holding literals and {what}', tup2, outer)]
     call = add('AssignDef', site=Obj('Assign', expr=Obj('Call')), prev=None)
     rows.append(('the result of a call', call, True))
     du = Obj('DefineUseAnalysis', defs=defs, def_to_idx={d: i for i, d in enumerate(defs)})
@@ -511,6 +515,8 @@ MUTANTS = [
     Mutant('param-store-pure', PURITY, "            case Argument() | FuncDef():\n                return True", "            case FuncDef():\n                return True", 'C07.X1'),
     Mutant('store-in-a-loop-is-local', PURITY, "        if isinstance(d, PhiDef) or isinstance(d.site, IndexedAssign):\n            return any(\n                self._may_be_outer(self.def_use.defs[i], seen)\n                for i in same_object_defs(d)\n            )\n",
            "        if isinstance(d, PhiDef) or isinstance(d.site, IndexedAssign):\n            return False\n", 'C07.X1', 'finding F62 before its repair: a helper that zeroes its argument in a loop is pure, the call is dropped'),
+    Mutant('first-source-decides', PURITY, "                case Var():\n                    if self._may_be_outer(self.def_use.find_def_from_use(e), seen):\n                        return True", "                case Var():\n                    return self._may_be_outer(self.def_use.find_def_from_use(e), seen)", 'C07.X1',
+           'seeded change C07d: `t = xs if c else tmp` is judged by the last source popped'),
     Mutant('store-through-an-alias-is-local', PURITY, "                case Var():\n                    if self._may_be_outer(self.def_use.find_def_from_use(e), seen):\n                        return True", "                case Var():\n                    pass", 'C07.X1'),
     Mutant('store-through-a-loop-target-is-local', PURITY, "            case ForStmt(iterable=e):\n                # the loop target names the elements of the iterable\n                pass\n", "", 'C07.X1'),
     Mutant('call-result-is-a-new-list', PURITY, "                case Call():\n                    # may hand back (part of) one of its arguments\n                    return True\n", "", 'C07.X1'),
